@@ -131,7 +131,7 @@ func (ex *Exec) rangeMap(st *State, s *ast.RangeStmt, label string, k func(*Stat
 		fr.vars[visObj] = Val{T: fmt.Sprintf("((as const (Array %s Bool)) false)", ks.Name), S: visSort}
 		fr.names[visObj.Name()] = visObj
 		ki := ex.mapKeys(st, mt)
-		dom0 := ex.w.define("rangedom", visSort, sSel(st.heap[ki[0].key], m.T))
+		dom0 := ex.w.define("rangedom", visSort, sIte(sEq(m.T, "nil"), fmt.Sprintf("((as const (Array %s Bool)) false)", ks.Name), sSel(st.heap[ki[0].key], m.T)))
 		var keyObj, valObj types.Object
 		pick := func(e ast.Expr) types.Object {
 			if id, ok := e.(*ast.Ident); ok && id.Name != "_" {
@@ -306,6 +306,10 @@ func (ex *Exec) extBuiltin(st *State, key string, ct *callTarget, k func(*State,
 		r := ex.newRef(st, "err")
 		k(st, []Val{{T: r, S: sRef, Go: ct.sig.Results().At(0).Type()}})
 		return true
+	case "fmt.Sprintf", "fmt.Sprint", "strconv.Itoa":
+		ex.w.assumed["assume-ext "+key+" returns some string and has no effect"] = true
+		k(st, []Val{ex.freshVal(st, "str", ct.sig.Results().At(0).Type())})
+		return true
 	}
 	return false
 }
@@ -314,6 +318,8 @@ func (ex *Exec) extWriteKeys(ws *writeSet, key string, info *types.Info, x *ast.
 	switch key {
 	case "errors.New", "fmt.Errorf":
 		ws.keys["alloc"] = ex.w.setSort(sRef)
+		return
+	case "fmt.Sprintf", "fmt.Sprint", "strconv.Itoa":
 		return
 	}
 	ws.all = true
